@@ -8,8 +8,13 @@ pub struct Out {
     pub seed: u64,
     pub tier_thorough: bool,
     pub lines: u64,
+    /// focus mode: only these declarations are run (empty = all) …
+    pub only: std::collections::HashSet<String>,
+    /// … with this many additional random inputs per probe set
+    pub boost: usize,
 }
 impl Out {
+    pub fn wants(&self, name: &str) -> bool { self.only.is_empty() || self.only.contains(name) }
     pub fn line(&mut self, s: &str) {
         self.lines += 1;
         let _ = writeln!(self.w, "{}", s);
@@ -79,7 +84,8 @@ fn dedup(mut v: Vec<u128>) -> Vec<u128> {
 }
 
 /// raw values for reads of an n-bit register: 0, all ones, alternating, walking one, walking zero, randoms
-pub fn raws(n: u32, seed: u64) -> Vec<u128> {
+pub fn raws(n: u32, o: &Out) -> Vec<u128> {
+    let seed = o.seed;
     let m = mask(n);
     let mut v = vec![0, m, 0x5555_5555_5555_5555_5555_5555_5555_5555u128 & m, 0xAAAA_AAAA_AAAA_AAAA_AAAA_AAAA_AAAA_AAAAu128 & m];
     for k in 0..n { v.push(1u128 << k); }
@@ -88,24 +94,28 @@ pub fn raws(n: u32, seed: u64) -> Vec<u128> {
     while k < n { v.push(m & !(1u128 << k)); k += step; }
     v.push(m & !(1u128 << (n - 1)));
     let mut r = Rng::new(seed, n as u64);
-    for _ in 0..6 { v.push(r.next128() & m); }
+    for _ in 0..(6 + o.boost) { v.push(r.next128() & m); }
     dedup(v)
 }
 /// backgrounds for writes
-pub fn wraws(n: u32, seed: u64) -> Vec<u128> {
+pub fn wraws(n: u32, o: &Out) -> Vec<u128> {
+    let seed = o.seed;
     let m = mask(n);
     let mut r = Rng::new(seed, 1000 + n as u64);
-    dedup(vec![0, m, r.next128() & m, r.next128() & m])
+    let mut v = vec![0, m, r.next128() & m, r.next128() & m];
+    for _ in 0..(o.boost / 16) { v.push(r.next128() & m); }
+    dedup(v)
 }
 /// value patterns for an n-bit field
-pub fn vals(n: u32, seed: u64) -> Vec<u128> {
+pub fn vals(n: u32, o: &Out) -> Vec<u128> {
+    let seed = o.seed;
     let m = mask(n);
     let mut v = vec![0, m, 1, m >> 1, m & !(m >> 1), 0x5555_5555_5555_5555_5555_5555_5555_5555u128 & m, 0xAAAA_AAAA_AAAA_AAAA_AAAA_AAAA_AAAA_AAAAu128 & m];
     let step = if n <= 16 { 1 } else { (n / 8).max(1) };
     let mut k = 0;
     while k < n { v.push(1u128 << k); k += step; }
     let mut r = Rng::new(seed, 2000 + n as u64);
-    for _ in 0..3 { v.push(r.next128() & m); }
+    for _ in 0..(3 + o.boost / 16) { v.push(r.next128() & m); }
     dedup(v)
 }
 pub fn small_range(n: u32) -> Vec<u128> { (0..n as u128).collect() }
@@ -114,7 +124,7 @@ pub fn pick(v: &[u128], seed: u64, salt: usize, trial: usize) -> u128 {
     let mut r = Rng::new(seed, 77777 + (salt as u64) * 131 + trial as u64 * 7919);
     v[r.below(v.len() as u64) as usize]
 }
-pub fn build_trials(o: &Out) -> usize { if o.tier_thorough { 40 } else { 8 } }
+pub fn build_trials(o: &Out) -> usize { (if o.tier_thorough { 40 } else { 8 }) + o.boost / 8 }
 pub fn dbg_raws(n: u32, seed: u64) -> Vec<u128> {
     let m = mask(n);
     let mut r = Rng::new(seed, 3000 + n as u64);
@@ -218,7 +228,7 @@ pub struct FI { pub name: &'static str, pub count: Option<usize>, pub vk: VK }
 pub fn op_hist<S>(o: &mut Out, d: &str, n: u32, fields: &[FI], mk: &dyn Fn(u128) -> S, rawof: &dyn Fn(&S) -> u128, stor: &dyn Fn(&S) -> u128,
                   apply: &dyn Fn(&mut S, usize, usize, u128, bool) -> String, getters: &dyn Fn(&S) -> Vec<String>,
                   rewrap: &dyn Fn(&S) -> S) {
-    let nseq = if o.tier_thorough { 60 } else { 12 };
+    let nseq = (if o.tier_thorough { 60 } else { 12 }) + o.boost / 8;
     let maxlen = if o.tier_thorough { 200 } else { 24 };
     let m = mask(n);
     let mut r = Rng::new(o.seed, 5000 + n as u64 + (fields.len() as u64) * 17);
